@@ -98,6 +98,17 @@ def initializers(desc):
         lo, hi = C.int_range(desc)
         out.append(("%d0001e-4" % hi, "q", Fraction(hi * 10000 + 1, 10000)))
         out.append(("%d0000e-4" % hi, "q", Fraction(hi)))
+    # literals with more than 28 significant digits and exponents beyond any float / Decimal context: the value is the EXACT rational
+    z = "0" * 33
+    for base in ((1, 255, 65504, 3) if k != "float" else (1, 65504, 3)):
+        out.append(("%d.%s1" % (base, z), "q", Fraction(base) + Fraction(1, 10**34)))
+        out.append(("%d.%s0" % (base, z), "q", Fraction(base)))
+        out.append(("%d + 2 ** -5000" % base, "q", Fraction(base) + Fraction(1, 2**5000)))
+        out.append(("%d * 2 ** 5000 / 2 ** 5000" % base, "q", Fraction(base)))
+        out.append(("%d + 10 ** -400" % base, "q", Fraction(base) + Fraction(1, 10**400)))
+    out.append(("0.%s1" % z, "q", Fraction(1, 10**34)))
+    out.append(("2 ** 5000 / 2 ** 4990", "q", Fraction(1024)))
+    out.append(("123456789012345678901234567890123456789 / 123456789012345678901234567890123456789", "q", Fraction(1)))
     out += [("true", "bool", True), ("false", "bool", False)]
     for src, s in STRINGS:
         out.append((src, "str", s))
@@ -144,8 +155,40 @@ def near_boundary(desc, kind, value) -> bool:
     return True
 
 
+def check_many_types(case, R: engine.Acc):
+    """More constant types in ONE process than any bounded per-type cache holds (127 integer types, twice), then the first ones again:
+    the range that decides acceptance must still be the type's own."""
+    types = [("uint%d" % n, ["uint", n, "s"]) for n in range(1, 65)] + [("int%d" % n, ["int", n]) for n in range(2, 65)]
+    order = types if case["order"] == "ascending" else list(reversed(types))
+    for rnd in range(2):
+        lines = []
+        for i, (src, d) in enumerate(order):
+            lo, hi = C.int_range(d)
+            lines += ["%s A%d_%d = %d" % (src, rnd, i, hi), "%s B%d_%d = %d" % (src, rnd, i, lo)]
+        o = api.read_namespace_tree({"rns/T.1.0.dsdl": "\n".join(lines) + "\n@sealed\n"}, "rns")
+        if o.error is not None:
+            R.violation("compliant-initializer-rejected:many-types", "a compliant initializer is accepted", case, observed=o.error)
+            return
+    # ... and now every type once more, alone, just beyond each end of its range
+    for src, d in order[:12] + order[60:66] + order[-12:]:
+        lo, hi = C.int_range(d)
+        for v in (hi + 1, lo - 1):
+            R.case(["many-types", case["order"], src, v], nontrivial=True, sample=False)
+            o = api.read_namespace_tree({"rns/T.1.0.dsdl": "%s X = %d\n@sealed\n" % (src, v)}, "rns")
+            if o.error is None:
+                R.outcome("noncompliant-accepted")
+                R.violation("noncompliant-initializer-accepted:after-many-types", "a non-compliant initializer is rejected, however many other constant types the process has seen", {**case, "type": src, "value": v}, observed="accepted", expected="InvalidDefinitionError")
+                return
+        o = api.read_namespace_tree({"rns/T.1.0.dsdl": "%s X = %d\n%s Y = %d\n@sealed\n" % (src, hi, src, lo)}, "rns")
+        if o.error is not None:
+            R.violation("compliant-initializer-rejected:after-many-types", "a compliant initializer is accepted", {**case, "type": src}, observed=o.error)
+            return
+    R.outcome("many-types-ok")
+
+
 def plan(tier):
     shards = [{"part": p, "parts": 32} for p in range(32)]
+    shards += [{"kind": "many-types"}]
     shards += H.plan_shards(['nested-revisions'])
     return shards
 
@@ -153,6 +196,10 @@ def plan(tier):
 def cases(shard, tier):
     if shard.get("kind") == "call-histories":
         yield from H.cases_of(shard)
+        return
+    if shard.get("kind") == "many-types":
+        yield {"kind": "many-types", "order": "ascending"}
+        yield {"kind": "many-types", "order": "descending"}
         return
     for i, (src, desc) in enumerate(constant_types()):
         if i % shard["parts"] == shard["part"]:
@@ -172,6 +219,8 @@ def read_one(type_src, inits):
 def check_case(case, R: engine.Acc):
     if case.get("kind") == "call-history":
         return H.check_history(case["label"], R, H.project_constants, 'constant-depends-on-earlier-calls', 'a constant holds the value of its initializer as evaluated over the definitions of THIS call')
+    if case.get("kind") == "many-types":
+        return check_many_types(case, R)
     desc, type_src = case["desc"], case["type_src"]
     inits = initializers(desc)
     if "init_index" in case:
